@@ -216,7 +216,20 @@ def py_source(s):
     from dyce import H
     from dyce.evaluation import PWithSelection
     if "h" in s:
-        return H(gens.py_hist_dict(s["h"]))
+        d = gens.py_hist_dict(s["h"])
+        form = s.get("form", "H")
+        # every spelling H(...) accepts is a source: the evaluator converts it exactly once
+        if form == "dict":
+            return d
+        if form == "pairs":
+            return list(d.items())
+        if form == "pairs_iter":
+            return iter(list(d.items()))
+        if form == "generator":
+            return ((o, c) for o, c in list(d.items()))
+        if form == "zip":
+            return zip(list(d.keys()), list(d.values()))
+        return H(d)
     if "p" in s:
         return pools.py_pool(s["p"])
     return PWithSelection(pools.py_pool(s["pw"]), pools.py_which(s["which"]))
@@ -319,7 +332,14 @@ def run_mech_impl(mech, calls, fault=None, use_foreach=False, base_exception=Fal
         cb, names = fs[i]
         # identical descriptions denote ONE object passed in several positions (foreach(f, p, p))
         built = {}
-        srcs = [built.setdefault(json.dumps(s, sort_keys=True), py_source(s)) for s in st["srcs"]]
+        srcs = []
+        for j, s_ in enumerate(st["srcs"]):
+            key = json.dumps(s_, sort_keys=True)
+            if s_.get("form") in ("pairs_iter", "generator", "zip"):
+                key += f"#{j}"            # a one-shot iterable can only be handed over once
+            if key not in built:
+                built[key] = py_source(s_)
+            srcs.append(built[key])
         args = srcs[: st["npos"]]
         kw = {names[j]: srcs[j] for j in range(st["npos"], len(srcs))}
         sent = H(gens.py_hist_dict(st["sentinel"]))
@@ -570,7 +590,17 @@ def twin_of(rng, s):
 def gen_source(rng, kinds=("h", "h", "p", "pw")):
     k = rng.choice(kinds)
     if k == "h":
-        return {"h": gens.hist(rng, max_faces=3, style=rng.choice(["unit", "small", "pos"]), frac_p=0.05, min_faces=1)}
+        src = {"h": gens.hist(rng, max_faces=3, style=rng.choice(["unit", "small", "pos"]), frac_p=0.05, min_faces=1)}
+        if rng.random() < 0.25:
+            src["form"] = rng.choice(["dict", "pairs", "pairs_iter", "generator", "zip"])
+        return src
+    if k == "p" and rng.random() < 0.35:
+        # a pool of DIFFERENT dice that share faces: the same sorted roll comes from several combinations
+        a = gens.hist(rng, max_faces=3, style=rng.choice(["unit", "pos"]), frac_p=0.0, min_faces=2)
+        b = [list(x) for x in a[:2]] + [[gens.q(9), 1]]
+        if rng.random() < 0.5:
+            b[0][1] += 1
+        return {"p": [a, b]}
     # no "big" counts here: under recursion totals are raised to the power branching**depth (MB-long integers)
     dice, _ = pools.gen_pool(rng, max_dice=2, max_faces=2, frac_p=0.0, styles=("unit", "small", "small", "pos", "pos"))
     if k == "p":
